@@ -99,9 +99,9 @@ def check(rep, c, cfg):
                             "monotone, so a refusal can be forgotten before pest::state looks")
         if ok and writes:
             # the incremented binding must be the first tuple component
-            first = first_component_binding(fn)
+            firsts = first_component_bindings(fn)
             tgt = hirq.local_id(writes[0]["l"])
-            if first is None or tgt != first:
+            if not firsts or tgt not in firsts:
                 r.violation("mut:%s:component" % p, where(writes[0]), "the incremented component is not the "
                             "counter (first) component of (current, limit)")
             inc_fns.append(p)
@@ -114,7 +114,8 @@ def check(rep, c, cfg):
         return
     inc_fn = inc_fns[0]
     # reached predicate: fn of the tracker returning bool
-    reached = [b for b in tracker_fns(c) if b.get("output") == "bool"]
+    reached = [b for b in tracker_fns(c) if b.get("output") == "bool"
+               and not (b.get("inputs") and str(b["inputs"][0]).startswith("&mut"))]
     if len(reached) != 1:
         r.lost("exactly one bool predicate on the tracker")
         return
@@ -136,11 +137,51 @@ def check(rep, c, cfg):
     cg = hirq.CallGraph([c])
     callers_reached = sorted(set(p for (p, n) in cg.callers_of(reached["path"])))
     callers_inc = sorted(set(p for (p, n) in cg.callers_of(inc_fn)))
+    # the increment may carry its own refusal test (`try_count(&mut self) -> bool`: an earlier arm / branch compares
+    # current >= limit and does not count); its callers must then turn a `false` answer into Err
+    incf = c.fn(inc_fn)
+    self_guarded = False
+    if incf is not None and incf.get("output") == "bool":
+        comps = all_tuple_components(incf)
+        ictx = hirq.Ctx(incf)
+        for w in [n for n in walk(incf["body"]) if kind(n) == "AssignOp"]:
+            for g in ictx.guards(w):
+                tests = []
+                if g[0] == "arm":
+                    tests = [(a.get("guard"), False) for a in g[1]["arms"][:g[2]] if a.get("guard") is not None]
+                elif g[0] in ("if", "not"):
+                    tests = [(g[1], g[2])]
+                for (cnd, truth) in tests:
+                    for x in walk(cnd):
+                        if kind(x) == "Binary" and x["op"] in (">=", "<="):
+                            l, rr = hirq.local_id(hirq.strip_deref(x["l"]) if hasattr(hirq, "strip_deref") else x["l"]), \
+                                hirq.local_id(hirq.strip_deref(x["r"]) if hasattr(hirq, "strip_deref") else x["r"])
+                            pair = (l, rr) if x["op"] == ">=" else (rr, l)
+                            if pair in comps and truth is False:
+                                self_guarded = True
     for p in callers_inc:
         r.instance("inc-caller:" + p, "", "calls the increment")
         fn = c.fn(p)
-        # the increment must be dominated by the refusal test returning Err
         pe = PathEnum(fn)
+        if self_guarded:
+            for (ev, out) in exits(pe.paths()):
+                refused = False
+                for e in ev:
+                    if e.kind != "cond":
+                        continue
+                    cnd, truth = peel(e.node), e.extra
+                    while kind(cnd) == "Unary" and cnd["op"] == "!":
+                        cnd, truth = peel(cnd["e"]), (not truth)
+                    if kind(cnd) in ("Call", "MethodCall") and callee(cnd) == inc_fn and truth is False:
+                        refused = True
+                if not refused:
+                    continue
+                v = hirq.path_value(ev)
+                if v is None or not (kind(peel(v)) == "Call" and str(callee(peel(v))).endswith("Result::Err")):
+                    r.violation("inc-caller:%s:refusal" % p, where(fn["body"]), "a call the tracker refused (the counting "
+                                "function answered false) does not end in Err: the combinator carries on uncounted")
+            continue
+        # the increment must be dominated by the refusal test returning Err
         for (ev, out) in pe.paths():
             ii = hirq.index_of(ev, lambda e: e.kind == "call" and callee(e.node) == inc_fn)
             if ii < 0:
@@ -255,7 +296,7 @@ def check(rep, c, cfg):
             if absorbed:
                 r3.violation("absorb:%s" % b["path"], where(n), "absorbs a refusal (%s) and pest::state does "
                              "not look at the tracker on success" % how)
-    refusefirst(rep, c, sfx, callers_inc)
+    refusefirst(rep, c, sfx, callers_inc, inc_fns)
     r4 = rep.rule("C12.ENTRY" + sfx, 0, "combinators that count a call (evidence only)")
     for p in callers_inc:
         for (q, n) in cg.callers_of(p):
@@ -271,6 +312,31 @@ def first_component_binding(fn):
                 if x.get("k") == "PBind":
                     return x["id"]
     return None
+
+
+def first_component_bindings(fn):
+    """binding ids of the first component of every (current, limit) tuple pattern in fn."""
+    out = set()
+    for n in walk(fn):
+        if n.get("k") == "PTuple" and len(n["pats"]) == 2:
+            for x in walk(n["pats"][0]):
+                if x.get("k") == "PBind":
+                    out.add(x["id"])
+    return out
+
+
+def all_tuple_components(fn):
+    """every (first, second) pair of bindings of a two-component tuple pattern in fn."""
+    out = []
+    for n in walk(fn):
+        if n.get("k") == "PTuple" and len(n["pats"]) == 2:
+            ids = []
+            for p in n["pats"]:
+                b = [x["id"] for x in walk(p) if x.get("k") == "PBind"]
+                ids.append(b[0] if len(b) == 1 else None)
+            if None not in ids:
+                out.append(tuple(ids))
+    return out
 
 
 def tuple_components(fn):
@@ -424,7 +490,7 @@ STD_MUT = ("push", "pop", "truncate", "clear", "insert", "extend", "drain", "set
            "remove", "append", "retain", "resize", "get_mut", "last_mut", "iter_mut", "as_mut")
 
 
-def refusefirst(rep, c, sfx, callers_inc):
+def refusefirst(rep, c, sfx, callers_inc, inc_fns=None):
     """A refused call must be indistinguishable from the call never having been made: the state handed back in the
     Err is the caller's state.  So a combinator asks the tracker BEFORE it changes anything."""
     r = rep.rule("C12.REFUSEFIRST" + sfx, 6,
@@ -437,11 +503,18 @@ def refusefirst(rep, c, sfx, callers_inc):
         r.lost("struct ParserState")
         return
     fields = [f["name"] for v in adt["variants"] for f in v["fields"]]
+    # the check: a call of the tracker's counting function, or of a closure-free wrapper of it (inc_call_check_limit)
+    def has_closure_param(b):
+        return any(p.get("k") == "PBind" and p.get("ty") == "F" for p in b["params"])
+    wrappers = set(p for p in callers_inc if c.fn(p) is not None and c.fn(p).get("impl_self") == PSTATE
+                   and not has_closure_param(c.fn(p)))
+    check_callees = set(wrappers) | (set(inc_fns) if inc_fns else set())
+    callers_inc = check_callees
     fns = []
     for b in c.bodies:
-        if b.get("impl_self") != PSTATE or b.get("body") is None or b["path"] in callers_inc:
+        if b.get("impl_self") != PSTATE or b.get("body") is None or b["path"] in wrappers:
             continue
-        if any(kind(x) in ("Call", "MethodCall") and callee(x) in callers_inc for x in walk(b["body"])):
+        if any(kind(x) in ("Call", "MethodCall") and callee(x) in check_callees for x in walk(b["body"])):
             fns.append(b)
     if not fns:
         r.lost("combinators calling the limit check")
